@@ -14,6 +14,7 @@ def dispatch (j : Json) : Except String Json := do
   | "expr" => handleExpr op j
   | "lang" => handleLang op j
   | "trace" => handleTrace op j
+  | "filter" => handleFilter op j
   | _ => throw s!"unknown model {m}"
 
 def step (line : String) : String :=
